@@ -27,6 +27,14 @@ func main() {
 	flag.Parse()
 
 	specs := allSpecs()
+	if *list && os.Getenv("HL_LIST_JSON") != "" {
+		out := map[string]any{}
+		for id, sp := range specs {
+			out[id] = map[string]any{"explanation": sp.Explanation, "not_decided": sp.NotDecided, "technique": sp.Technique}
+		}
+		writeJSON("/dev/stdout", out)
+		return
+	}
 	if *list {
 		var ids []string
 		for id := range specs {
